@@ -14,7 +14,9 @@ Definition kind_in_grammar (k : host_kind) : bool :=
 
 Definition sn_strict (s : bytes) : bool :=
   match sn_parse s with
-  | Some (host, _, k) => kind_in_grammar k && (len host <=? 255)
+  | Some (host, _, HBr6) => true
+  | Some (host, _, (HDns | HV4)) => len host <=? 255
+  | Some (_, _, (HMapped | HBr4)) => false
   | None => false
   end.
 
@@ -40,7 +42,8 @@ Definition sn_departure (s : bytes) : bytes :=
   match sn_parse s with
   | Some (host, _, HBr4) => bs "bracketed-ipv4"
   | Some (host, _, HMapped) => bs "unbracketed-ipv4-mapped-ipv6"
-  | Some (host, _, _) => if 255 <? len host then bs "dns-name-longer-than-255" else []
+  | Some (host, _, (HDns | HV4)) => if 255 <? len host then bs "dns-name-longer-than-255" else []
+  | Some (host, _, HBr6) => []
   | None => []
   end.
 
